@@ -65,8 +65,10 @@ def gen_history(rng):
     return {"specs": specs, "backends": backends, "ops": ops}
 
 
-def run_proc(h, timeout=600):
-    p = subprocess.run([PY, "-m", "props.c10_history", jdumps(h)], cwd=VERIF, env=worker_env(), capture_output=True, text=True, timeout=timeout)
+def run_proc(h, timeout=600, hashseed="0"):
+    env = worker_env()
+    env["PYTHONHASHSEED"] = hashseed
+    p = subprocess.run([PY, "-m", "props.c10_history", jdumps(h)], cwd=VERIF, env=env, capture_output=True, text=True, timeout=timeout)
     if p.returncode != 0:
         return None, p.stderr[-500:]
     try:
@@ -102,7 +104,8 @@ def run_history(ctx, h, refs):
         stratum = "%s/%s" % ("default-scale" if is_default(spec) else "own-scale", be)
         key = digest([spec, be])
         if key not in refs:
-            r, err = run_proc({"specs": [spec], "backends": [be], "ops": [["new", 0], ["export", 0]]})
+            # the reference process also differs in PYTHONHASHSEED: "a fresh process" is any fresh process
+            r, err = run_proc({"specs": [spec], "backends": [be], "ops": [["new", 0], ["export", 0]]}, hashseed="5")
             ctx.event("reference_processes")
             refs[key] = (r["exports"][0] if r and r["exports"] else None, err)
         ref, err = refs[key]
